@@ -16,6 +16,8 @@ ASSUMPTIONS = ['forms in props/read_forms.py are the pinned representation of th
 
 
 def run(ctx, rep):
+    from props import accessors as _acc
+    _acc.check(ctx, rep, 'C02', 'R02.acc')
     rep.rule('R02.cmp', 'every range comparison of the read path keeps its confirmed normal form', floor=40, analysis='A10')
     for t in (rf.CMP_PARTITION, rf.CMP_SEGMENT, rf.CMP_INDEX, rf.CMP_LOG):
         check_comparisons(ctx, rep, 'R02.cmp', t)
@@ -24,6 +26,25 @@ def run(ctx, rep):
 
     rep.rule('R02.pos', 'index positions point at batch starts: writers and forms of Segment.last_index_position (end of log at load, + batch size at persist)', floor=2, analysis='A10')
     sf.check(ctx, rep, 'R02.pos', part_fields=(), seg_fields=('last_index_position',))
+
+    # ------------------------------------------------------------ R02.e on-disk codecs agree field by field
+    rep.rule('R02.e', 'on-disk codecs agree field by field: batch header and index entry are written and read at the same byte ranges under the same field names; sizes equal the layout', floor=8, analysis='A11')
+    import wire
+    ST = 'server::streaming::'
+    for name, w, r, const in (('batch header', ST + 'batching::message_batch::RetainedMessageBatch::header_as_bytes', rf.LR + '::read_next_batch', ST + 'batching::message_batch::RETAINED_BATCH_HEADER_LEN'),
+                              ('index entry', ST + 'segments::indexes::index_writer::SegmentIndexWriter::save_index', ST + 'segments::indexes::index_reader::parse_index', ST + 'segments::indexes::INDEX_SIZE')):
+        lw, lr = wire.addressed_layout(ctx, w), wire.addressed_layout(ctx, r)
+        ok = lw == lr and len(lw) >= 3
+        rep.ob('R02.e', w, name + ': writer = reader', ok, None, str(lw) if ok else 'the %s is written as %s but read as %s' % (name, lw, lr))
+        # contiguous, starting at 0, total = the size constant
+        cont = bool(lw) and lw[0][0] == 0 and all(lw[i][1] == lw[i + 1][0] for i in range(len(lw) - 1))
+        size = ctx.facts.consts.get(const)
+        rep.ob('R02.e', w, name + ': contiguous and sized', cont and size is not None and size[1] == lw[-1][1], None, 'fields cover [0, %s) and %s = %s' % (lw[-1][1] if lw else '?', const.split('::')[-1], size[1] if size else '?'))
+    forms.check_aggregates(ctx, rep, 'R02.e', {
+        ST + 'batching::message_batch::RetainedMessageBatch::new': {ST + 'batching::message_batch::RetainedMessageBatch': {'base_offset': 'base_offset', 'last_offset_delta': 'last_offset_delta', 'max_timestamp': 'max_timestamp', 'length': 'length', 'bytes': 'bytes'}},
+        ST + 'segments::segment::Segment::store_offset_and_timestamp_index_for_batch': {ST + 'segments::indexes::index::Index': {'offset': '(batch_last_offset - self.start_offset)', 'position': 'self.last_index_position', 'timestamp': 'batch_max_timestamp'}},   # relative offset of the LAST message, position = start of the batch
+    })
+    forms.check_call_args(ctx, rep, 'R02.e', {rf.S + '::persist_messages': {'Segment::store_offset_and_timestamp_index_for_batch': ['BatchAccumulator::batch_max_offset(Option::take(…)), BatchAccumulator::batch_max_timestamp(Option::take(…))']}})
 
     # ------------------------------------------------------------ siblings
     rep.rule('R02.f', 'sibling implementations agree: the two range readers of the log use the same stop condition; both index lookups are reached from the same loader with the same range', floor=2, analysis='A6')
